@@ -236,3 +236,52 @@ def c12(tier, seed, replay=None):
                         ["every access operation selects one child: the model resolves accesses to leaves and sums weights; integer weights make the comparison exact",
                          "container nesting depth <= 2, arity <= 3"], time.time() - t0, len(verdict.violations))
     return rc
+
+
+def c15(tier, seed, replay=None):
+    t0 = time.time()
+    verdict = vlib.Verdict("C15")
+    r = vlib.tlc_must_pass(vlib.run_tlc("MCDispatch", workers=1, timeout=600), "dispatch decision table")
+    states, trans = r.distinct, r.generated
+    nsh = 14
+    shards = [{"shard": k, "nshards": nsh} for k in range(nsh)]
+    rows, files = vlib.parallel_replay("dispatch_sweep.py", shards, nproc=nsh, tag="dispatch", timeout=1500)
+    d = vlib.subdir("judge-C15")
+    jfiles = [vlib.write_ndjson(os.path.join(d, "r%d.ndjson" % k), part) for k, part in enumerate(vlib.chunks(rows, 8))]
+    accepted, g2, d2, _w, _inv = vlib.parallel_validate("TraceDispatch", jfiles, cfg="SPECIFICATION Spec\n", njvm=8)
+    states += d2
+    trans += g2
+    outcomes = {}
+    for row in rows:
+        key = ("guard:" if row["guard"] else "") + row["outcome"]
+        outcomes[key] = outcomes.get(key, 0) + 1
+        if row["guard"]:
+            ok = row["outcome"] == "raised"
+        else:
+            ok = not (row["varies"] and row["outcome"] == "zero") and not (row["outcome"] == "derivative" and row["stable"] and not row["agrees"])
+        if ok != (row["id"] in accepted):
+            raise vlib.MachineryError("TLC and the Python mirror disagree on dispatch row %s" % row)
+        if not ok:
+            why = ("an unsupported request did not raise: %s returned %s" % (row["name"], row.get("exc"))) if row["guard"] else \
+                  ("silently treated as a constant although the NumPy value varies with this argument" if row["outcome"] == "zero"
+                   else "returned a derivative that grossly disagrees with a stable finite difference of the NumPy function")
+            verdict.violation({"ns": row["ns"], "name": row["name"], "prim": row["name"], "mode": row["mode"], "argpos": row["argpos"], "template": row["template"],
+                               "outcome": row["outcome"], "guard": row["guard"], "mode_or_nd": row["mode"]}, {"reason": why, "row": row})
+    callables = {(r_["ns"], r_["name"]) for r_ in rows if not r_["guard"]}
+    with_float = {(r_["ns"], r_["name"]) for r_ in rows if not r_["guard"] and r_["outcome"] != "nonfloat"}
+    coverage = {"states": states, "transitions": trans, "traces_validated_against_impl": len(rows), "traces_accepted": len(accepted),
+                "evaluations": len(rows), "distinct_nontrivial": len({(r_["ns"], r_["name"], r_["template"], r_["argpos"], r_["mode"]) for r_ in rows
+                                                                     if r_["outcome"] in ("derivative", "raised", "zero")}),
+                "callables_with_an_accepted_template": len(callables), "callables_with_float_output": len(with_float),
+                "guard_cases": sum(1 for r_ in rows if r_["guard"]), "outcomes": outcomes, "exhaustive": False,
+                "rule": "a row = (exported callable of autograd.numpy/.linalg/.fft/.random or ArrayBox attribute, call template accepted by NumPy, positional "
+                        "float argument, mode); varies = the NumPy float output changes under perturbations of 1e-7 and 1e-9 of either sign; plus 20 guard "
+                        "cases that must raise; distinct_nontrivial = rows whose outcome is a derivative, a raise or a zero",
+                "samples": [rows[0], rows[len(rows) // 2], rows[-1]],
+                "known_findings_reobserved": verdict.known_hits}
+    rc = verdict.finish()
+    vlib.write_evidence("C15", tier, seed, "exploration", coverage,
+                        ["19 call templates; callables no template fits are not explored (counted by absence)", "effectful / I/O / RNG-state callables are "
+                         "never called (deny list in harness/dispatch_sweep.py)", "derivative agreement is a gross check (1e-2) against finite differences"],
+                        time.time() - t0, len(verdict.violations))
+    return rc
